@@ -385,6 +385,12 @@ let rec adel k = function
 let aset k v l =
   (k, v) :: (adel k l)
 
+(** val is_nil : 'a1 list -> bool **)
+
+let is_nil = function
+| [] -> true
+| _ :: _ -> false
+
 (** val nodupb : n list -> bool **)
 
 let rec nodupb = function
@@ -766,9 +772,9 @@ let rec deqn n0 s =
 (** val pushl : n list -> st -> st **)
 
 let pushl vs s =
-  match vs with
-  | [] -> s
-  | _ :: _ -> notify_receiver (set_acc (set_q s (app s.q vs)) (app s.acc vs))
+  if is_nil vs
+  then s
+  else notify_receiver (set_acc (set_q s (app s.q vs)) (app s.acc vs))
 
 (** val push : n -> st -> st **)
 
@@ -887,29 +893,26 @@ let do_try_send_b s h vs inplace =
   match aget h s.hs with
   | Some r ->
     if (&&) r.htx (fresh vs s)
-    then (match vs with
-          | [] -> (s, (if inplace then RMutOk (N0, []) else RBatchOk N0))
-          | _ :: _ ->
-            let s0 = use vs s in
-            if tx_dead s0 r
-            then ((giveback vs s0),
-                   (if inplace
-                    then RMutClosed vs
-                    else RBatchErr (N0, false, vs)))
-            else let k = N.to_nat (N.min (len vs) (cold_slack s0)) in
-                 let s1 = pushl (firstn k vs) s0 in
-                 let rest = skipn k vs in
-                 (match rest with
-                  | [] ->
-                    (s1,
-                      (if inplace
-                       then RMutOk ((len vs), [])
-                       else RBatchOk (len vs)))
-                  | _ :: _ ->
-                    ((giveback rest s1),
-                      (if inplace
-                       then RMutOk ((N.of_nat k), rest)
-                       else RBatchErr ((N.of_nat k), true, rest)))))
+    then if is_nil vs
+         then (s, (if inplace then RMutOk (N0, []) else RBatchOk N0))
+         else let s0 = use vs s in
+              if tx_dead s0 r
+              then ((giveback vs s0),
+                     (if inplace
+                      then RMutClosed vs
+                      else RBatchErr (N0, false, vs)))
+              else let k = N.to_nat (N.min (len vs) (cold_slack s0)) in
+                   let s1 = pushl (firstn k vs) s0 in
+                   let rest = skipn k vs in
+                   if is_nil rest
+                   then (s1,
+                          (if inplace
+                           then RMutOk ((len vs), [])
+                           else RBatchOk (len vs)))
+                   else ((giveback rest s1),
+                          (if inplace
+                           then RMutOk ((N.of_nat k), rest)
+                           else RBatchErr ((N.of_nat k), true, rest)))
     else (s, RBad)
   | None -> (s, RBad)
 
@@ -919,20 +922,19 @@ let do_send_b s h vs inplace =
   match aget h s.hs with
   | Some r ->
     if (&&) ((&&) r.htx (negb r.hasync)) (fresh vs s)
-    then (match vs with
-          | [] -> (s, (if inplace then RMutOk (N0, []) else RBatchOk N0))
-          | _ :: _ ->
-            if tx_dead s r
-            then ((giveback vs (use vs s)),
-                   (if inplace
-                    then RMutClosed vs
-                    else RBatchErr (N0, false, vs)))
-            else if N.leb (len vs) (hot_slack s)
-                 then ((pushl vs (use vs s)),
-                        (if inplace
-                         then RMutOk ((len vs), [])
-                         else RBatchOk (len vs)))
-                 else (s, RBlock))
+    then if is_nil vs
+         then (s, (if inplace then RMutOk (N0, []) else RBatchOk N0))
+         else if tx_dead s r
+              then ((giveback vs (use vs s)),
+                     (if inplace
+                      then RMutClosed vs
+                      else RBatchErr (N0, false, vs)))
+              else if N.leb (len vs) (hot_slack s)
+                   then ((pushl vs (use vs s)),
+                          (if inplace
+                           then RMutOk ((len vs), [])
+                           else RBatchOk (len vs)))
+                   else (s, RBlock)
     else (s, RBad)
   | None -> (s, RBad)
 
@@ -1001,9 +1003,9 @@ let do_try_recv_b s h max0 =
          else if r.hclosed
               then (s, RDisc)
               else let (s1, vs) = deqn (N.to_nat max0) s in
-                   (match vs with
-                    | [] -> recv_tail s1 REmpty
-                    | _ :: _ -> ((flush s1), (RVals vs)))
+                   if is_nil vs
+                   then recv_tail s1 REmpty
+                   else ((flush s1), (RVals vs))
   | None -> (s, RBad)
 
 (** val do_recv_b : st -> n -> n -> st * res **)
@@ -1018,12 +1020,11 @@ let do_recv_b s h max0 =
          else if r.hclosed
               then (s, RDisc)
               else let (s1, vs) = deqn (N.to_nat max0) s in
-                   (match vs with
-                    | [] ->
-                      if N.eqb s1.scount N0
-                      then ((flush s1), RDisc)
-                      else (s, RBlock)
-                    | _ :: _ -> ((flush s1), (RVals vs)))
+                   if is_nil vs
+                   then if N.eqb s1.scount N0
+                        then ((flush s1), RDisc)
+                        else (s, RBlock)
+                   else ((flush s1), (RVals vs))
   | None -> (s, RBad)
 
 (** val close_h : st -> n -> hrec -> st **)
@@ -1061,9 +1062,7 @@ let do_drop_h s h =
          in
          let s1 = if r.hclosed then s0 else close_h s0 h r in
          let s2 = set_hs s1 (adel h s1.hs) in
-         ((match s2.hs with
-           | [] -> destroy s2
-           | _ :: _ -> s2), ROk)
+         ((if is_nil s2.hs then destroy s2 else s2), ROk)
   | None -> (s, RBad)
 
 (** val do_clone : st -> n -> n -> st * res **)
@@ -1191,15 +1190,13 @@ let poll_recv_core s o w reg =
 
 let poll_recv_b_core s o w max0 reg =
   let (s1, vs) = deqn (N.to_nat max0) s in
-  (match vs with
-   | [] ->
-     let s2 = flush s1 in
-     if N.eqb s2.scount N0
-     then (((if reg then set_rw s2 None else s2), false), (RReady RDisc))
-     else (((set_rw s2 (Some (o, w))), true), RPending)
-   | _ :: _ ->
-     (((flush (if reg then set_rw s1 None else s1)), false), (RReady (RVals
-       vs))))
+  if is_nil vs
+  then let s2 = flush s1 in
+       if N.eqb s2.scount N0
+       then (((if reg then set_rw s2 None else s2), false), (RReady RDisc))
+       else (((set_rw s2 (Some (o, w))), true), RPending)
+  else (((flush (if reg then set_rw s1 None else s1)), false), (RReady (RVals
+         vs)))
 
 (** val pend_of : st -> n -> res -> (n * n) option **)
 
@@ -1249,24 +1246,22 @@ let do_poll s f w =
                       (RReady (RBatchErr (sent, false, rest))))
                else let j = N.to_nat (N.min (len rest) (hot_slack s)) in
                     let s1 =
-                      match j with
-                      | O -> s
-                      | S _ -> pushl (firstn j rest) (unreg_send f s)
+                      if is_nil (firstn j rest)
+                      then s
+                      else pushl (firstn j rest) (unreg_send f s)
                     in
                     let rest' = skipn j rest in
                     let sent' = N.add sent (N.of_nat j) in
-                    (match rest' with
-                     | [] ->
-                       ((put_f f { fh = fr.fh; fk = (FSendB ([], sent',
-                          total)); fpend = None } s1), (RReady (RBatchOk
-                         total)))
-                     | _ :: _ ->
-                       let s2 =
-                         set_sq s1 (app (unreg_send f s1).sq ((f, w) :: []))
-                       in
-                       ((put_f f { fh = fr.fh; fk = (FSendB (rest', sent',
-                          total)); fpend = (Some (w, (s2.wk w))) } s2),
-                       RPending))
+                    if is_nil rest'
+                    then ((put_f f { fh = fr.fh; fk = (FSendB ([], sent',
+                            total)); fpend = None } s1), (RReady (RBatchOk
+                           total)))
+                    else let s2 =
+                           set_sq s1 (app (unreg_send f s1).sq ((f, w) :: []))
+                         in
+                         ((put_f f { fh = fr.fh; fk = (FSendB (rest', sent',
+                            total)); fpend = (Some (w, (s2.wk w))) } s2),
+                         RPending)
         | FRecvB (max0, reg) ->
           if N.eqb max0 N0
           then ((put_f f { fh = fr.fh; fk = (FRecvB (max0, reg)); fpend =
